@@ -524,6 +524,10 @@ func (s *sim) afterOp() {
 	}
 	s.hit("C06.lock-free-after-op")
 	if locked {
+		if s.prop == "C20" && s.curOp == "resolver-error" && !s.hostile {
+			// C20: a resolver error changes neither the pool nor how calls are routed
+			s.fail("C20.resolver-error", "lock-left-held", "the balancer's lock is still held after ResolverError returned: no call can be routed any more")
+		}
 		s.fail("C06.lock-held", s.curOp, "balancer lock still held after %s returned", s.curOp)
 		s.dead = true
 		return
@@ -726,6 +730,10 @@ func (s *sim) resolverError() {
 	s.say("resolver error")
 	h, st := s.exec(func() { s.b.ResolverError(fmt.Errorf("verif: resolver error")) })
 	if !s.completed(h, st, "ResolverError") {
+		if s.prop == "C20" && !s.hostile && s.viol != nil && s.viol.Rule == "C05.panic" {
+			s.viol.Sig, s.viol.Rule = "C20.resolver-error:"+strings.TrimPrefix(s.viol.Sig, "C05."), "C20.resolver-error"
+			s.viol.Detail = "a resolver error must change nothing; " + s.viol.Detail
+		}
 		if st == vParked {
 			s.fail("C06.blocked", "resolver-error", "ResolverError parked")
 			s.dead = true
@@ -1627,6 +1635,7 @@ var simKeys = []string{"k1", "k2", "k3", "k4"}
 func simMethodTable() (map[string]simMethod, []*pb.MethodConfig) {
 	m := map[string]simMethod{
 		"/v/bind":      {"bind", "key"},
+		"/v/bindalias": {"bind", "key"}, // second name of the /v/bind entry
 		"/v/bindmany":  {"bind", "keys"},
 		"/v/bound":     {"bound", "key"},
 		"/v/boundn":    {"bound", "nested.key"},
@@ -1646,7 +1655,15 @@ func simMethodTable() (map[string]simMethod, []*pb.MethodConfig) {
 	sort.Strings(names)
 	var cfg []*pb.MethodConfig
 	for _, n := range names {
-		cfg = append(cfg, &pb.MethodConfig{Name: []string{n}, Affinity: &pb.AffinityConfig{Command: cmd[m[n].cmd], AffinityKey: m[n].path}})
+		if n == "/v/bindalias" {
+			continue
+		}
+		e := &pb.MethodConfig{Name: []string{n}, Affinity: &pb.AffinityConfig{Command: cmd[m[n].cmd], AffinityKey: m[n].path}}
+		if n == "/v/bind" {
+			// one entry, two method names
+			e.Name = append(e.Name, "/v/bindalias")
+		}
+		cfg = append(cfg, e)
 	}
 	return m, cfg
 }
@@ -1858,6 +1875,14 @@ func simRunCase(env vEnv, out *vOut, idx int64) *sim {
 		}
 	}
 
+	if (s.prop == "C20" || s.hostile) && rng.Chance(8) {
+		// a resolver error that arrives before the first resolver update (no configuration yet)
+		s.hit("C20.resolver-error-before-first-update")
+		s.resolverError()
+		if s.viol != nil || s.dead {
+			return s
+		}
+	}
 	// first resolver update(s)
 	if (b["emptyresolve"] || s.hostile) && rng.Chance(40) {
 		s.resolve(true, cfg, true)
@@ -2180,7 +2205,7 @@ func (s *sim) stepPick() {
 		pi = rng.Intn(len(s.pubs))
 	}
 	p := s.pubs[pi]
-	methods := []string{"/v/plain", "/v/plain", "/v/bind", "/v/bound", "/v/bound", "/v/unbind", "/v/bindmany", "/v/boundn"}
+	methods := []string{"/v/plain", "/v/plain", "/v/bind", "/v/bound", "/v/bound", "/v/unbind", "/v/bindmany", "/v/boundn", "/v/bindalias"}
 	if s.bias["keys"] {
 		methods = append(methods, "/v/bind", "/v/bound", "/v/bound", "/v/bound", "/v/unbind", "/v/boundn")
 	}
@@ -2189,7 +2214,7 @@ func (s *sim) stepPick() {
 	}
 	if s.bias["rr"] {
 		// (a BIND method is a BIND call whatever its key locator, also an empty one)
-		methods = append(methods, "/v/bind", "/v/bind", "/v/bind", "/v/bindmany", "/v/bindempty")
+		methods = append(methods, "/v/bind", "/v/bind", "/v/bindalias", "/v/bindmany", "/v/bindempty")
 	}
 	method := methods[rng.Intn(len(methods))]
 	key := simKeys[rng.Intn(len(simKeys))]
